@@ -73,6 +73,11 @@ func sockRecvFn(_ context.Context, mod api.Module, params []uint64) sys.Errno {
 	}
 
 	if riFlags&wasip1.RI_RECV_PEEK != 0 {
+		if riDataCount == 0 { // No iovec to peek into: nothing at riData belongs to this call.
+			mem.WriteUint32Le(resultRoDatalen, 0)
+			mem.WriteUint16Le(resultRoFlags, 0)
+			return 0
+		}
 		// Each record in riData is of the form:
 		// type iovec struct { buf *uint8; bufLen uint32 }
 		// This means that the first `uint32` is a `buf *uint8`.
